@@ -195,7 +195,76 @@ func decideWith(solvers []solverSpec, dir string, id int, query string, timeoutS
 // here). Pass 2: the undecided ones with all solvers racing, few at a time so
 // that the machine is not oversubscribed (a loaded machine turns proofs that
 // need ten seconds into timeouts).
+// Discharge decides all obligations. With confirm (thorough tier) the same
+// pipeline runs with the longer timeout and every discharged obligation is then
+// given to a second, different solver on the rendering that proved it (30 s);
+// a contradicting answer is a disagreement, a missing one is recorded as
+// unconfirmed (never as a failure).
 func Discharge(obls []*Obl, timeoutS int, confirm bool, workers int) (disagreements int) {
+	if confirm {
+		dischargeOnce(obls, timeoutS, workers)
+		return confirmPhase(obls, workers)
+	}
+	return dischargeOnce(obls, timeoutS, workers)
+}
+
+func confirmPhase(obls []*Obl, workers int) (disagreements int) {
+	dir, err := os.MkdirTemp("", "govc-c")
+	if err != nil {
+		panic(err)
+	}
+	defer os.RemoveAll(dir)
+	var mu sync.Mutex
+	var wg sync.WaitGroup
+	sem := make(chan struct{}, workers/2+1)
+	for i, o := range obls {
+		if o.Result != "unsat" || o.provedQuery == "" {
+			continue
+		}
+		wg.Add(1)
+		go func(i int, o *Obl) {
+			defer wg.Done()
+			sem <- struct{}{}
+			defer func() { <-sem }()
+			winner := o.Solver
+			if j := strings.Index(winner, "("); j >= 0 {
+				winner = winner[:j]
+			}
+			file := filepath.Join(dir, fmt.Sprintf("c%d.smt2", i))
+			os.WriteFile(file, []byte(o.provedQuery), 0644)
+			n := 1
+			for _, sp := range solvers {
+				if sp.name == winner || (strings.HasPrefix(sp.name, "z3-new") && strings.HasPrefix(winner, "z3-new")) {
+					continue
+				}
+				r := runSolver(sp, file, 30)
+				if r.status == "unsat" {
+					n++
+					break
+				}
+				if r.status == "sat" {
+					mu.Lock()
+					disagreements++
+					mu.Unlock()
+					o.Tags = map[string]string{"disagreement": sp.name + " answers sat on the rendering " + o.Solver + " proved"}
+					break
+				}
+			}
+			if o.Tags == nil {
+				o.Tags = map[string]string{}
+			}
+			o.Tags["unsat_confirmations"] = fmt.Sprint(n)
+			o.provedQuery = ""
+		}(i, o)
+	}
+	wg.Wait()
+	return disagreements
+}
+
+func dischargeOnce(obls []*Obl, timeoutS int, workers int) (disagreements int) {
+	confirm := false
+	keepQuery := true
+	_ = keepQuery
 	dir, err := os.MkdirTemp("", "govc-q")
 	if err != nil {
 		panic(err)
@@ -266,6 +335,7 @@ func Discharge(obls []*Obl, timeoutS int, confirm bool, workers int) (disagreeme
 			g, _ := decideWith(pickSolvers("z3-new", "cvc5"), dir, i+4000000, o4.Query(false), 10, false)
 			if g.status == "unsat" {
 				o.Result, o.Solver, o.TimeS = "unsat", g.solver+"(lean)", g.secs
+				o.provedQuery = o4.Query(false)
 				return
 			}
 		}
@@ -279,6 +349,7 @@ func Discharge(obls []*Obl, timeoutS int, confirm bool, workers int) (disagreeme
 			g, _ := decideWith(pickSolvers("z3-new", "z3-new-int", "cvc5"), dir, i+2000000, o2.Query(false), 40, false)
 			if g.status == "unsat" {
 				o.Result, o.Solver, o.TimeS = "unsat", g.solver+"(ground)", g.secs
+				o.provedQuery = o2.Query(false)
 				return
 			}
 		}
@@ -290,6 +361,7 @@ func Discharge(obls []*Obl, timeoutS int, confirm bool, workers int) (disagreeme
 			g, _ := decideWith(pickSolvers("z3-new", "z3"), dir, i+5000000, o5.Query(false), 20, false)
 			if g.status == "unsat" {
 				o.Result, o.Solver, o.TimeS = "unsat", g.solver+"(lambda)", g.secs
+				o.provedQuery = o5.Query(false)
 				return
 			}
 		}
@@ -302,11 +374,15 @@ func Discharge(obls []*Obl, timeoutS int, confirm bool, workers int) (disagreeme
 			g, _ := decideWith(pickSolvers("z3-new", "cvc5", "z3"), dir, i+3000000, o3.Query(false), 15, false)
 			if g.status == "unsat" {
 				o.Result, o.Solver, o.TimeS = "unsat", g.solver+"(focused)", g.secs
+				o.provedQuery = o3.Query(false)
 				return
 			}
 		}
 		best, allr := decide(dir, i, o.Query(true), tmo, confirm)
 		o.Result, o.Solver, o.TimeS = best.status, best.solver, best.secs
+		if best.status == "unsat" {
+			o.provedQuery = o.Query(true)
+		}
 		if best.status != "unsat" && best.status != "sat" && hasQ {
 			// undecided with quantified hypotheses: look for a candidate
 			// counterexample without them (believed only after replay)
